@@ -235,6 +235,63 @@ pub fn input_predicate(files: &[(String, Vec<u8>)]) -> &'static str {
     }
 }
 
+/// every single permanent I/O fault of one run: each input the fault-free run requested made unreadable,
+/// each output path it wrote made unwritable
+pub fn fault_sweep(
+    files: &[(String, Vec<u8>)],
+    args: &[String],
+    pred: &str,
+    ctx: &mut CaseCtx,
+    render: &dyn Fn(serde_json::Value) -> serde_json::Value,
+) -> Option<Verdict> {
+    let mut fs = MemFs::from_files(files);
+    fs.add_std();
+    let _ = sut::drive(&mut fs, args);
+    let mut inputs: Vec<String> = fs.requested.borrow().iter().filter(|n| fs.has(n)).cloned().collect();
+    inputs.sort();
+    inputs.dedup();
+    let outputs: Vec<String> = fs.writes.iter().map(|w| w.0.clone()).collect();
+    for name in &inputs {
+        let (r, fail) = judge_run(files, args, Some(("read", name)));
+        ctx.evals += 1;
+        ctx.label("fault:read");
+        let fail = fail.or_else(|| match &r {
+            Ok(o) if o.ok => Some(("unreadable-input-but-success".to_string(), format!("input `{}` unreadable, yet the run succeeded", name))),
+            _ => None,
+        });
+        if let Some((clause, detail)) = fail {
+            let clause = format!("{}|fault-read|{}", pred, clause);
+            if let Some(v) = ctx.judge(clause, detail) {
+                ctx.want_render = true;
+                ctx.render(|| render(json!({"fault": ["read", name]})));
+                return Some(v);
+            }
+        }
+    }
+    for (k, name) in outputs.iter().enumerate() {
+        let (r, fail) = judge_run(files, args, Some(("write", name)));
+        ctx.evals += 1;
+        ctx.label("fault:write");
+        let fail = fail.or_else(|| match &r {
+            Ok(o) if o.ok => Some(("unwritable-output-but-success".to_string(), format!("output `{}` unwritable, yet the run succeeded", name))),
+            Ok(o) if o.writes.len() > k => Some((
+                "write-fault-later-groups-written".to_string(),
+                format!("output `{}` (group {}) unwritable, but {} files were written", name, k, o.writes.len()),
+            )),
+            _ => None,
+        });
+        if let Some((clause, detail)) = fail {
+            let clause = format!("{}|fault-write|{}", pred, clause);
+            if let Some(v) = ctx.judge(clause, detail) {
+                ctx.want_render = true;
+                ctx.render(|| render(json!({"fault": ["write", name]})));
+                return Some(v);
+            }
+        }
+    }
+    None
+}
+
 impl Property for C03 {
     fn id(&self) -> &'static str {
         "C03"
@@ -264,6 +321,90 @@ impl Property for C03 {
     }
     fn random_cases(&self, tier: Tier) -> u64 {
         tier.pick(200_000, 3_000_000)
+    }
+    fn fuzz_runs(&self, _tier: Tier) -> u64 {
+        120_000
+    }
+    fn fuzz_raw(&self) -> bool {
+        true
+    }
+    fn fuzz_seeds(&self) -> Vec<Vec<u8>> {
+        // every single-file test of the repository (<= 3000 bytes) behind two option bytes
+        let mut out = Vec::new();
+        for (k, e) in corpus::corpus().iter().enumerate() {
+            let asm: Vec<&(String, Vec<u8>)> = e.files.iter().filter(|f| f.0.ends_with(".asm")).collect();
+            if asm.len() == 1 && asm[0].1.len() <= 3000 {
+                let mut d = vec![(k % 251) as u8, ((k * 7) % 256) as u8];
+                d.extend_from_slice(&asm[0].1);
+                out.push(d);
+            }
+            if out.len() >= 400 {
+                break;
+            }
+        }
+        out
+    }
+    /// raw mode (libFuzzer): byte 0 = output format, byte 1 = option bits, the rest is the text of main.asm
+    fn run_raw(&self, data: &[u8], ctx: &mut CaseCtx) -> Verdict {
+        if data.len() < 2 {
+            ctx.skipped = true;
+            return Verdict::Pass;
+        }
+        let fmt = FORMATS[data[0] as usize % FORMATS.len()];
+        let fl = data[1];
+        let files = vec![("main.asm".to_string(), data[2..].to_vec())];
+        let mut args: Vec<String> = vec!["-q".into(), "main.asm".into()];
+        match fl & 3 {
+            1 => args.push("-t1".into()),
+            2 => args.push("-t2".into()),
+            3 => args.push("-t3".into()),
+            _ => {}
+        }
+        if fl & 4 != 0 {
+            args.push("--debug-no-optimize-static".into());
+        }
+        if fl & 8 != 0 {
+            args.push("--debug-no-optimize-matcher".into());
+        }
+        if fl & 64 != 0 {
+            args.push("-dval=1".into());
+        }
+        args.push("-f".into());
+        args.push(fmt.to_string());
+        if fl & 16 != 0 {
+            args.push("-p".into());
+        } else {
+            args.push("-o".into());
+            args.push("out0.x".into());
+        }
+        if fl & 32 != 0 {
+            for a in ["--", "-f", "symbols", "-o", "out1.x"] {
+                args.push(a.into());
+            }
+        }
+        let render = |extra: serde_json::Value| json!({"args": args, "files": [{"name": "main.asm", "text": String::from_utf8_lossy(&data[2..])}], "extra": extra});
+        let mut h = crate::engine::fnv(args.join(" ").as_bytes());
+        h = crate::engine::mix(h, crate::engine::fnv(&data[2..]));
+        ctx.hash = h;
+        let pred = input_predicate(&files);
+        let (r, fail) = judge_run(&files, &args, None);
+        ctx.evals += 1;
+        if let Some((clause, detail)) = fail {
+            ctx.want_render = true;
+            ctx.render(|| render(json!(null)));
+            return Verdict::fail(format!("{}|{}", pred, clause), detail);
+        }
+        let o = r.unwrap();
+        let phase = if o.ok { "ok" } else { phase_of(&o.msgs) };
+        ctx.label(format!("phase:{}", phase));
+        ctx.nontrivial = !matches!(phase, "parse" | "cli" | "io");
+        ctx.render(|| render(json!({"phase": phase})));
+        if fl & 128 != 0 {
+            if let Some(v) = fault_sweep(&files, &args, pred, ctx, &render) {
+                return v;
+            }
+        }
+        Verdict::Pass
     }
     fn crash_is_violation(&self) -> bool {
         true
@@ -316,51 +457,8 @@ impl Property for C03 {
         ctx.render(|| render(&case, json!({"phase": phase})));
 
         if do_faults {
-            // every input that the fault-free run requested, every output it wrote
-            let mut fs = MemFs::from_files(&case.files);
-            fs.add_std();
-            let _ = sut::drive(&mut fs, &case.args);
-            let mut inputs: Vec<String> = fs.requested.borrow().iter().filter(|n| fs.has(n)).cloned().collect();
-            inputs.sort();
-            inputs.dedup();
-            let outputs: Vec<String> = fs.writes.iter().map(|w| w.0.clone()).collect();
-            for name in &inputs {
-                let (r, fail) = judge_run(&case.files, &case.args, Some(("read", name)));
-                ctx.evals += 1;
-                ctx.label("fault:read");
-                let fail = fail.or_else(|| match &r {
-                    Ok(o) if o.ok => Some(("unreadable-input-but-success".to_string(), format!("input `{}` unreadable, yet the run succeeded", name))),
-                    _ => None,
-                });
-                if let Some((clause, detail)) = fail {
-                    let clause = format!("{}|fault-read|{}", pred, clause);
-                    if let Some(v) = ctx.judge(clause, detail) {
-                        ctx.want_render = true;
-                        ctx.render(|| render(&case, json!({"fault": ["read", name]})));
-                        return v;
-                    }
-                }
-            }
-            for (k, name) in outputs.iter().enumerate() {
-                let (r, fail) = judge_run(&case.files, &case.args, Some(("write", name)));
-                ctx.evals += 1;
-                ctx.label("fault:write");
-                let fail = fail.or_else(|| match &r {
-                    Ok(o) if o.ok => Some(("unwritable-output-but-success".to_string(), format!("output `{}` unwritable, yet the run succeeded", name))),
-                    Ok(o) if o.writes.len() > k => Some((
-                        "write-fault-later-groups-written".to_string(),
-                        format!("output `{}` (group {}) unwritable, but {} files were written", name, k, o.writes.len()),
-                    )),
-                    _ => None,
-                });
-                if let Some((clause, detail)) = fail {
-                    let clause = format!("{}|fault-write|{}", pred, clause);
-                    if let Some(v) = ctx.judge(clause, detail) {
-                        ctx.want_render = true;
-                        ctx.render(|| render(&case, json!({"fault": ["write", name]})));
-                        return v;
-                    }
-                }
+            if let Some(v) = fault_sweep(&case.files, &case.args, pred, ctx, &|extra| render(&case, extra)) {
+                return v;
             }
         }
         Verdict::Pass
